@@ -104,7 +104,7 @@ Lemma canvas_size_scale f st cells :
   canvas_size (set_scale st (f * scale st)) cells =
   (qs f (fst (canvas_size st cells)), qs f (snd (canvas_size st cells))).
 Proof.
-  unfold canvas_size, set_scale, qs; cbn [scale fst snd].
+  unfold canvas_size, canvas_of, set_scale, qs; cbn [scale fst snd].
   f_equal; apply Qred_complete; rewrite Qred_correct; ring.
 Qed.
 
@@ -113,11 +113,11 @@ Proof.
   reflexivity.
 Qed.
 
-Lemma doc_of_scale f cb st w h :
-  doc_of cb (set_scale st (f * scale st)) (qs f w) (qs f h) =
-  match doc_of cb st w h with Ok d => Ok (scale_node f d) | Err e => Err e end.
+Lemma doc_emit_scale f frags groups legend st w h :
+  doc_emit frags groups legend (set_scale st (f * scale st)) (qs f w) (qs f h) =
+  match doc_emit frags groups legend st w h with Ok d => Ok (scale_node f d) | Err e => Err e end.
 Proof.
-  unfold doc_of. destruct (fragments_of cb) as [[frags groups]|e]; cbn [bind]; [|reflexivity].
+  unfold doc_emit.
   change (scale (set_scale st (f * scale st))) with (f * scale st)%Q.
   change (include_styles (set_scale st (f * scale st))) with (include_styles st).
   change (include_defs (set_scale st (f * scale st))) with (include_defs st).
@@ -130,6 +130,14 @@ Proof.
   - destruct (include_backdrop st); reflexivity.
   - rewrite map_map. apply map_ext. intros g. cbn [scale_node map]. f_equal.
     rewrite map_map. apply map_ext. intros fr. apply fragment_node_scale.
+Qed.
+
+Lemma doc_of_scale f cb st w h :
+  doc_of cb (set_scale st (f * scale st)) (qs f w) (qs f h) =
+  match doc_of cb st w h with Ok d => Ok (scale_node f d) | Err e => Err e end.
+Proof.
+  unfold doc_of. destruct (fragments_of cb) as [[frags groups]|e]; cbn [bind]; [|reflexivity].
+  apply doc_emit_scale.
 Qed.
 
 (** C11, first clause: multiplying the scale setting by [f] multiplies every number of the
